@@ -18,7 +18,7 @@ func init() { core.Register(c13{}) }
 func (c13) ID() string    { return "C13" }
 func (c13) Level() string { return "exploration" }
 func (c13) Rule() string {
-	return "seeded starts with 0..10 runners (unordered, ordered, priority-ordered, priority-only, lazy, runner+closer, with their own dependencies on other components and on each other) among 0..20 other components (eager, lazy, cyclic), arbitrary Order values incl. ties; in half of the cases one or two runners are made to fail. Offline checker over the per-start event log (logical clock shared by Init/AfterPropertiesSet methods, the observing post-processor and Run methods): successful start => every runner has exactly one run event, every run event follows the last lifecycle event of every component created in the start, run events obey the ordering contract; failing runner => Run returns an error, the last run event is a failing runner, nothing ran twice, and every runner that did not run could legally be sorted after the failing one. non-trivial = >= 2 runners of >= 2 classes, or a failing runner that is not last; distinct = canonical scenario signature; zero-size runners of different types and orders take part; runners whose Order() is settled during their own initialization; a component contributed programmatically by a factory post-processor is initialised before any runner; runner errors of a field-less value type or of an application error type with a Cause() method and no cause, or context.Canceled (plain / wrapped); a component collecting runners by method name; runners exposed through decorators of a few shared decorator types (a post-processor wraps each after its initialisation)"
+	return "seeded starts with 0..10 runners (unordered, ordered, priority-ordered, priority-only, lazy, runner+closer, with their own dependencies on other components and on each other) among 0..20 other components (eager, lazy, cyclic), arbitrary Order values incl. ties; in half of the cases one or two runners are made to fail. Offline checker over the per-start event log (logical clock shared by Init/AfterPropertiesSet methods, the observing post-processor and Run methods): successful start => every runner has exactly one run event, every run event follows the last lifecycle event of every component created in the start, run events obey the ordering contract; failing runner => Run returns an error, the last run event is a failing runner, nothing ran twice, and every runner that did not run could legally be sorted after the failing one. non-trivial = >= 2 runners of >= 2 classes, or a failing runner that is not last; distinct = canonical scenario signature; zero-size runners of different types and orders take part; runners whose Order() is settled during their own initialization; a component contributed programmatically by a factory post-processor is initialised before any runner; runner errors of a field-less value type or of an application error type with a Cause() method and no cause, or context.Canceled (plain / wrapped); a component collecting runners by method name; runners exposed through decorators of a few shared decorator types (a post-processor wraps each after its initialisation); one runner replaced by a non-runner object (the others still run)"
 }
 func (c13) Assumptions() []string {
 	return []string{"with Order ties the position of the failing runner is not unique; the set of runners that ran must be a prefix of some contract-respecting sequence"}
@@ -61,7 +61,13 @@ func (p c13) Run(c *core.Ctx) {
 	nOther := len(sc.Nodes)
 	nr := c.Rng.Intn(11)
 	var runners []int
+	targeted := map[int]bool{} // runners that other runners depend on
 	lateOrd := 0
+	// in a third of the decorating cases the post-processor instead replaces ONE runner (one without
+	// dependencies of its own, which nothing else collects), after its initialisation, by an object that is no
+	// runner - a service proxy that does not forward Run: that one is no participant any more, all the others are
+	replaceMode := decorate && c.Rng.Intn(3) == 0
+	replaced := -1
 	for i := 0; i < nr; i++ {
 		k := g.AddRandomNode(world.TypesRunner, 0.25)
 		sc.Nodes[k].Ord = []int{0, 0, 1, 1, -1, 3, 3, -5, 7, math.MaxInt, math.MinInt, math.MaxInt - 1, -1 << 62}[c.Rng.Intn(13)]
@@ -73,6 +79,10 @@ func (p c13) Run(c *core.Ctx) {
 			sc.Nodes[k].ProvisionalOrd = &pv
 			lateOrd++
 		}
+		if replaceMode && replaced < 0 {
+			replaced = k
+			continue
+		}
 		// dependencies of the runner
 		for x := 0; x < c.Rng.Intn(3); x++ {
 			if nOther > 0 && c.Rng.Intn(2) == 0 {
@@ -81,13 +91,14 @@ func (p c13) Run(c *core.Ctx) {
 				j := runners[c.Rng.Intn(len(runners))]
 				if j != k {
 					g.EdgeByName(k, j, "", "any")
+					targeted[j] = true
 				}
 			}
 		}
 	}
 	// a component that collects everything startable by method name (func:"Run,returns=*"): collecting the
 	// runners is not running them
-	if nOther > 0 && nr > 0 && c.Rng.Intn(4) == 0 {
+	if nOther > 0 && nr > 0 && !replaceMode && c.Rng.Intn(4) == 0 {
 		i := c.Rng.Intn(nOther)
 		if free := g.FreeSlots(i, func(si world.SlotInfo) bool { return si.Name == "AnyS" }); len(free) > 0 {
 			g.SetTag(i, "AnyS", "func", []string{"Run,returns=*,required=false", "Run,required=false"}[c.Rng.Intn(2)])
@@ -101,7 +112,7 @@ func (p c13) Run(c *core.Ctx) {
 	if nr > 0 && c.Rng.Intn(6) == 0 {
 		var cands []int
 		for _, k := range runners {
-			if ti := world.Palette[sc.Nodes[k].Type]; ti.Init || ti.Aps {
+			if ti := world.Palette[sc.Nodes[k].Type]; (ti.Init || ti.Aps) && k != replaced {
 				cands = append(cands, k)
 			}
 		}
@@ -146,7 +157,7 @@ func (p c13) Run(c *core.Ctx) {
 	if nr > 0 && creationFault < 0 && c.Rng.Intn(2) == 0 {
 		for x := 0; x < 1+c.Rng.Intn(2); x++ {
 			f := runners[c.Rng.Intn(len(runners))]
-			if !contains(sc.Nodes[f].Fails, "run") {
+			if f != replaced && !contains(sc.Nodes[f].Fails, "run") {
 				sc.Nodes[f].Fails = append(sc.Nodes[f].Fails, "run")
 				failing = append(failing, f)
 				switch c.Rng.Intn(6) {
@@ -161,7 +172,11 @@ func (p c13) Run(c *core.Ctx) {
 		}
 	}
 	g.ShuffleOrders()
-	if decorate && nr > 0 {
+	if replaced >= 0 {
+		extra = append(extra, world.NewSubstituter(map[string]world.SubPlan{sc.Nodes[replaced].DisplayName(): {After: true}}))
+		c.Count("starts_with_a_runner_replaced_by_a_non_runner", 1)
+	}
+	if decorate && replaced < 0 && nr > 0 {
 		var names []string
 		for _, k := range runners {
 			if c.Rng.Intn(4) != 0 {
@@ -279,6 +294,13 @@ func (p c13) Run(c *core.Ctx) {
 			return
 		}
 		for _, k := range runners {
+			if k == replaced {
+				if ran[k] > 1 {
+					fail(fmt.Sprintf("runner %s (replaced by a non-runner) has %d run events", sc.Nodes[k].DisplayName(), ran[k]))
+					return
+				}
+				continue
+			}
 			if ran[k] != 1 {
 				fail(fmt.Sprintf("runner %s has %d run events in a successful start", sc.Nodes[k].DisplayName(), ran[k]))
 				return
@@ -312,7 +334,7 @@ func (p c13) Run(c *core.Ctx) {
 			}
 		}
 		for _, k := range runners {
-			if ran[k] == 0 && !mayFollow(last, runnerPart(sc, k)) {
+			if ran[k] == 0 && k != replaced && !mayFollow(last, runnerPart(sc, k)) {
 				fail(fmt.Sprintf("runner %s was skipped although it sorts before the failing runner %s", sc.Nodes[k].DisplayName(), sc.Nodes[last.id].DisplayName()))
 				return
 			}
